@@ -120,14 +120,12 @@ def model(ctx):
     return n, problems
 
 
-_cache = {}
-
-
 def report(ctx, prop, rule):
-    key = id(ctx.repo)
-    if key not in _cache:
-        _cache[key] = model(ctx)
-    n, problems = _cache[key]
+    # one model run per check run (never keyed by id(): ids are reused after garbage collection)
+    memo = ctx.__dict__.setdefault('_model_memo', {})
+    if 'trigger_model' not in memo:
+        memo['trigger_model'] = model(ctx)
+    n, problems = memo['trigger_model']
     f = ctx.repo.func(P + "Parameters.trigger")
     ctx.abstract_cases += n
     bad = problems[prop]
